@@ -12,6 +12,9 @@ items), any LAParams (rationals, `boxes_flow` none or any number), a page box wi
 Only property theorems live here; lemmas are in `Lemmas/Layout*.lean`.
 -/
 import PdfVerif.Lemmas.LayoutFigures
+import PdfVerif.Lemmas.LayoutHeap
+import PdfVerif.Lemmas.LayoutAnno
+import PdfVerif.Lemmas.LayoutColumns
 
 namespace PdfVerif.Props.C08
 open PdfVerif PdfVerif.Gen.Layout PdfVerif.Layout
@@ -203,6 +206,102 @@ theorem C08_lines (p : LAParams) (pageBB : BB) (hp : WfPage pageBB) (items : Lis
       obtain ⟨l0, hl0, rfl⟩ := hl
       exact lineOK_of_inv (hinv l0 (List.mem_filter.mp hl0).1)
 
+/-! ### the heap order and `LTAnno` insertion (round 6) -/
+
+/-- **The heap order is a total order.**  `HEntry.le` - the tuple order `(skip_isany, d, seq1, seq2)` of the
+entries of the heap of `group_textboxes`, with creation numbers as the code uses them since fix 0d18780 - is
+total, transitive and antisymmetric: two different entries are never "equal" for the heap, so no tie is left
+to memory addresses or to the internal layout of `heapq`. -/
+theorem C08_heap_order :
+    (∀ a b : HEntry, a.le b = true ∨ b.le a = true) ∧
+    (∀ a b c : HEntry, a.le b = true → b.le c = true → a.le c = true) ∧
+    (∀ a b : HEntry, a.le b = true → b.le a = true → a = b) :=
+  ⟨HEntry.le_total, HEntry.le_trans, HEntry.le_antisymm⟩
+
+/-- **The code's heap entries are the model's.**  The regenerated description of `group_textboxes` (every push,
+the pop, the sequence numbers, the liveness test; `Gen.Layout.HEAP_SHAPE` is re-read from pdfminer/layout.py on
+every run) is the one `HEntry` / `HEntry.le` / `gtbStep` model: entries are compared by
+`(skip_isany, d, seq1, seq2)`, sequence numbers are positions in `boxes` resp. creation order (`len(seq)`), a
+re-queued entry only changes its flag.  An edit of the tuples or of the numbering breaks this theorem. -/
+theorem C08_heap_shape : HEAP_SHAPE =
+    ["seq seq.setdefault(box, len(seq))",
+     "push False | dist(box1, box2) | seq[box1] | seq[box2]",
+     "call heapq.heapify(dists)",
+     "pop skip_isany | d | id1 | id2",
+     "live id1 not in done and id2 not in done",
+     "push True | d | id1 | id2",
+     "call done.update([id1, id2])",
+     "seq seq[group] = len(seq)",
+     "push False | dist(group, other) | seq[group] | seq[other]"] := by decide +kernel
+
+/-- **`popMin` is `heappop`.**  What the model pops is a member of the heap, the remaining list holds exactly
+the other entries, the popped entry is below every entry, and it is the ONLY member with that property - so
+every correct priority queue (whatever its internal layout) pops the same entry. -/
+theorem C08_pop_least (h : List HEntry) (m : HEntry) (r : List HEntry) (hp : popMin HEntry.le h = some (m, r)) :
+    m ∈ h ∧ h.Perm (m :: r) ∧ (∀ e ∈ h, m.le e = true) ∧
+    ∀ m' ∈ h, (∀ e ∈ h, m'.le e = true) → m' = m :=
+  ⟨popMin_mem hp, popMin_perm h m r hp, popMin_least HEntry.le_total HEntry.le_trans h m r hp,
+   fun m' hm' hl => popMin_unique HEntry.le_total HEntry.le_trans HEntry.le_antisymm hp m' hm' hl⟩
+
+/-- … and a non-empty heap always pops. -/
+theorem C08_pop_some (le : Cmp) (h : List HEntry) (hne : h ≠ []) : ∃ m r, popMin le h = some (m, r) := by
+  cases hp : popMin le h with
+  | none => exact absurd (popMin_none.mp hp) hne
+  | some q => exact ⟨q.1, q.2, rfl⟩
+
+/-- **Annotations, stage 1.**  The members of every line that `group_objects` yields are exactly the ones the
+word-margin specification prescribes for the line's glyphs: the glyphs in content order, a space before a glyph
+iff the documented predicate holds between it and the glyph directly before it, nothing else. -/
+theorem C08_anno_group_objects (p : LAParams) (gs : List Glyph) :
+    ∀ l ∈ groupObjects p gs, l.elems = Spec.lineElems l.vertical p.word_margin l.glyphs :=
+  groupObjects_anno p gs
+
+/-- **Annotations, whole analysis.**  Every line of the result - in a text box or kept as an empty line - has
+EXACTLY the members of the specification: its glyphs in content order, a space annotation exactly where the
+documented `word_margin` predicate holds between consecutive glyphs, and one final line break.  Every `LTAnno`
+of the page is accounted for. -/
+theorem C08_anno_exact (p : LAParams) (pageBB : BB) (hp : WfPage pageBB) (items : List Item) :
+    ∀ l ∈ linesOf (analyze le p pageBB items), l.elems = Spec.lineElemsBreak l.vertical p.word_margin l.glyphs := by
+  by_cases h : (items.filterMap Item.glyph?).isEmpty = true
+  · have : (analyze le p pageBB items).children = items.map Item.toChild := by simp [analyze, h]
+    intro l hl
+    exfalso
+    simp only [linesOf, boxesOf, this, List.mem_append, List.mem_flatMap, List.mem_filterMap, List.mem_map] at hl
+    rcases hl with ⟨b, ⟨c, ⟨it, _, rfl⟩, hc⟩, _⟩ | ⟨c, ⟨it, _, rfl⟩, hc⟩ <;> cases it <;>
+      simp [Item.toChild, Child.box?, Child.line?] at hc
+  · have s := stages le p pageBB items (by simpa using h)
+    have hinv : ∀ l ∈ s.lines, l.elems = Spec.lineElems l.vertical p.word_margin l.glyphs := by
+      rw [s.hlines]; exact groupObjects_anno p _
+    have hspec := groupTextlines_spec p pageBB hp _ (nonEmpty_lines s)
+    rw [← s.hboxes] at hspec
+    intro l hl
+    simp only [linesOf, List.mem_append] at hl
+    rcases hl with hl | hl
+    · rw [boxesOf_stages s] at hl
+      simp only [List.mem_flatMap] at hl
+      obtain ⟨b', hb', hlb⟩ := hl
+      obtain ⟨b, hb, hs⟩ := box_origin hspec.2.1 hb'
+      have : l ∈ b.analyze.lines := by
+        have := congrArg Box.lines hs
+        simp only [strip_lines] at this
+        rw [← this]; exact hlb
+      have := (box_analyze_perm b).subset this
+      simp only [List.mem_map] at this
+      obtain ⟨l0, hl0, rfl⟩ := this
+      have hl0' : l0 ∈ s.lines.filter (fun l => !l.isEmpty) :=
+        hspec.1.subset (List.mem_flatMap.mpr ⟨b, hb, hl0⟩)
+      exact analyze_anno _ l0 (hinv l0 (List.mem_filter.mp hl0').1)
+    · rw [emptiesOf_stages s] at hl
+      simp only [List.mem_map] at hl
+      obtain ⟨l0, hl0, rfl⟩ := hl
+      exact analyze_anno _ l0 (hinv l0 (List.mem_filter.mp hl0).1)
+
+/-- **A page without glyphs** (empty page, or shapes / figures only) is left exactly as it is: the children are
+the items in content order, no groups, nothing is flagged. -/
+theorem C08_no_glyphs (p : LAParams) (pageBB : BB) (items : List Item) (h : items.filterMap Item.glyph? = []) :
+    (analyze le p pageBB items).children = items.map Item.toChild ∧ (analyze le p pageBB items).groups = none := by
+  simp [analyze, h]
+
 /-! ### boxes -/
 
 /-- **Boxes.**  Every text box of the result has ≥ 1 line, its bounding box is the tight hull of its
@@ -345,6 +444,40 @@ theorem C08_single_root (p : LAParams) (pageBB : BB) (items : List Item) :
       rw [hlen]
       exact groupTextboxes_single_root (le := le) pageBB _
 
+/-! ### `detect_vertical` (round 6) -/
+
+/-- **Without `detect_vertical` nothing is vertical.**  Every text line (in a box or empty), every text box and
+every group of the hierarchy, at any depth, is of the horizontal / left-to-right class, whatever the glyphs. -/
+theorem C08_detect_vertical (p : LAParams) (pageBB : BB) (hp : WfPage pageBB) (items : List Item)
+    (hdv : p.detect_vertical = false) :
+    (∀ l ∈ linesOf (analyze le p pageBB items), l.vertical = false) ∧
+    (∀ b ∈ boxesOf (analyze le p pageBB items), b.vertical = false) ∧
+    (∀ gs, (analyze le p pageBB items).groups = some gs → ∀ g ∈ gs, g.groupsLRTB) := by
+  have hlines : ∀ l ∈ linesOf (analyze le p pageBB items), l.vertical = false := by
+    intro l hl
+    have := (C08_lines (le := le) p pageBB hp items l hl).vertical_only_if_detected
+    cases hv : l.vertical with
+    | false => rfl
+    | true => rw [this hv] at hdv; exact absurd hdv (by decide)
+  have hboxes : ∀ b ∈ boxesOf (analyze le p pageBB items), b.vertical = false := by
+    intro b hb
+    have hne := (C08_boxes (le := le) p pageBB hp items b hb).1
+    obtain ⟨l, hl⟩ := List.exists_mem_of_ne_nil _ hne
+    rw [← C08_box_uniform (le := le) p pageBB hp items b hb l hl]
+    exact hlines l (by simp only [linesOf, List.mem_append, List.mem_flatMap]; exact Or.inl ⟨b, hb, hl⟩)
+  refine ⟨hlines, hboxes, ?_⟩
+  intro gs hgs g hg
+  by_cases hne : (items.filterMap Item.glyph?).isEmpty = true
+  · simp [analyze, hne] at hgs
+  · have hh := C08_hierarchy (le := le) p pageBB hp items (by simpa using hne)
+    obtain ⟨hleaves, hok⟩ := hh.2 gs hgs
+    cases hbf : p.boxes_flow with
+    | none => rw [hh.1.mpr hbf] at hgs; exact absurd hgs (by simp)
+    | some bf =>
+      refine (groupOK_lrtb (hok bf hbf g hg) ?_).2
+      intro b hb
+      exact hboxes b (by rw [← hleaves]; exact List.mem_flatMap.mpr ⟨g, hg, hb⟩)
+
 /-! ### text -/
 
 /-- The text of a line / box / group is the concatenation of its members' text. -/
@@ -373,5 +506,15 @@ example : exLines.map Line.isEmpty = [false, false, true] := by decide +kernel
 -- the two non-empty lines are too far apart to share a box
 example : (groupTextlines exParams exPage (exLines.filter (fun l => !l.isEmpty))).map (·.lines.length) = [1, 1] := by
   decide +kernel
+
+/- round 6: the heap order decides a tie by the creation numbers; `popMin` finds that entry anywhere in the list -/
+example : popMin HEntry.le [⟨false, 5, 0, 2⟩, ⟨true, 1, 0, 1⟩, ⟨false, 5, 0, 1⟩, ⟨false, 7, 1, 2⟩]
+    = some (⟨false, 5, 0, 1⟩, [⟨false, 5, 0, 2⟩, ⟨true, 1, 0, 1⟩, ⟨false, 7, 1, 2⟩]) := by decide +kernel
+
+/- round 6: the specified members of the first line of the example page ("Hi" · space · "!") -/
+example : (exLines.all fun l => decide (l.elems = Spec.lineElems l.vertical exParams.word_margin l.glyphs)) = true := by
+  decide +kernel
+example : ((exLines.map (·.analyze)).map fun l => l.elems.map (fun e => match e with | .ch g => g.id | .anno c => 1000 + c))
+    = [[1, 2, 1032, 3, 1010], [4, 1010], [5, 1010]] := by decide +kernel
 
 end PdfVerif.Props.C08
